@@ -97,6 +97,10 @@ def _hyper_models(backend):
                                             dict(moduli=lambda p: (p["mu"], p["lmbda"] + 2 * p["mu"] / 3), fun="saint_venant_kirchhoff",
                                                  reg={"tt": "tt-eig"}))
 
+        S["saint_venant_kirchhoff[k=real]"] = (lambda r: dict(mu=U(r, 0.5, 2), lmbda=U(r, 1, 4), k=float(r.choice([-2, -1, 0.5, 1.5, 3, 4]))),
+                                               dict(moduli=lambda p: (p["mu"], p["lmbda"] + 2 * p["mu"] / 3), fun="saint_venant_kirchhoff",
+                                                    reg={"tt": "tt-eig"}))
+
         def ortho(r):
             from .util import random_rotation
             Q = random_rotation(r, 3)
@@ -105,6 +109,9 @@ def _hyper_models(backend):
                                                                  G=list(r.uniform(1, 4, 3)))
             return dict(mu=list(mu), lmbda=list(lm), r1=Q[:, 0], r2=Q[:, 1], r3=Q[:, 2])
         S["saint_venant_kirchhoff_orthotropic"] = (ortho, dict(moduli=None, isotropic=False))
+        S["saint_venant_kirchhoff_orthotropic[k!=2]"] = (lambda r: dict(ortho(r), k=float(r.choice([0, 1, 0.5, 3]))),
+                                                         dict(moduli=None, isotropic=False, fun="saint_venant_kirchhoff_orthotropic",
+                                                              reg={"tt": "tt-eig"}))
     return S
 
 
